@@ -973,6 +973,12 @@ fn union_single_and_range(
             }
             let mut indices = indicies.iter().collect::<Vec<_>>();
             indices.sort();
+            if indices.is_empty() {
+                return Err(GrammarError::new(
+                    "Permitted alphabet does not contain any character",
+                    GrammarErrorType::UnpackingError,
+                ));
+            }
             let mut last = indices[0];
             let mut contiguous = true;
             for v in indices[1..].iter() {
